@@ -14,10 +14,31 @@ pub use crate::re_compiler::Error;
 pub struct Regex {
     re_program: ReProgram,
     matches_empty_string: bool,
+    #[cfg(regexml_verif)]
+    verif_id: u64,
 }
 
 impl Regex {
     fn new(re: &str, flags: &str, language: Language) -> Result<Self, Error> {
+        #[cfg(regexml_verif)]
+        if let Some(_traced) = crate::verif::enter() {
+            use crate::verif::{err_json, str_json};
+            let ids = format!(
+                "\"xpath\":{},\"pat\":{},\"flags\":{}",
+                language == Language::XPath,
+                str_json(re),
+                str_json(flags)
+            );
+            return crate::verif::call(
+                "compile",
+                ids,
+                || Self::new(re, flags, language),
+                |r| match r {
+                    Ok(re) => format!("{{\"k\":\"ok\",\"rid\":{}}}", re.verif_id),
+                    Err(e) => err_json(e),
+                },
+            );
+        }
         let re_flags = ReFlags::new(flags, language)?;
         let pattern = re.chars().collect();
         let re_compiler = ReCompiler::new(pattern, re_flags);
@@ -28,6 +49,8 @@ impl Regex {
         Ok(Self {
             re_program,
             matches_empty_string,
+            #[cfg(regexml_verif)]
+            verif_id: crate::verif::new_id(),
         })
     }
 
@@ -57,6 +80,8 @@ impl Regex {
         Ok(Self {
             re_program,
             matches_empty_string,
+            #[cfg(regexml_verif)]
+            verif_id: crate::verif::new_id(),
         })
     }
 
@@ -69,6 +94,16 @@ impl Regex {
 
     /// Returns `true` if the argument matches this regular expression.
     pub fn is_match(&self, haystack: &str) -> bool {
+        #[cfg(regexml_verif)]
+        if let Some(_traced) = crate::verif::enter() {
+            let ids = format!("\"rid\":{},\"s\":{}", self.verif_id, crate::verif::str_json(haystack));
+            return crate::verif::call(
+                "is_match",
+                ids,
+                || self.is_match(haystack),
+                |r| format!("{{\"k\":\"ok\",\"v\":{}}}", r),
+            );
+        }
         let mut matcher = self.matcher(haystack);
         matcher.is_match()
     }
@@ -86,6 +121,25 @@ impl Regex {
     /// Returns a string with all pieces matching this regular expression replaced
     /// by the replacement.
     pub fn replace_all(&self, haystack: &str, replacement: &str) -> Result<String, Error> {
+        #[cfg(regexml_verif)]
+        if let Some(_traced) = crate::verif::enter() {
+            use crate::verif::{err_json, str_json};
+            let ids = format!(
+                "\"rid\":{},\"s\":{},\"repl\":{}",
+                self.verif_id,
+                str_json(haystack),
+                str_json(replacement)
+            );
+            return crate::verif::call(
+                "replace_all",
+                ids,
+                || self.replace_all(haystack, replacement),
+                |r| match r {
+                    Ok(s) => format!("{{\"k\":\"ok\",\"v\":{}}}", str_json(s)),
+                    Err(e) => err_json(e),
+                },
+            );
+        }
         self.check_matches_empty_string()?;
 
         let mut matcher = self.matcher(haystack);
@@ -97,11 +151,26 @@ impl Regex {
 
     /// Returns an iterator of the input string tokenized by the regular expression.
     pub fn tokenize<'a>(&'a self, haystack: &str) -> Result<TokenIter<'a>, Error> {
+        #[cfg(regexml_verif)]
+        if let Some(_traced) = crate::verif::enter() {
+            let ids = format!("\"rid\":{},\"s\":{}", self.verif_id, crate::verif::str_json(haystack));
+            return crate::verif::call(
+                "tokenize",
+                ids,
+                || self.tokenize(haystack),
+                |r| match r {
+                    Ok(it) => format!("{{\"k\":\"ok\",\"it\":{}}}", it.verif_id),
+                    Err(e) => crate::verif::err_json(e),
+                },
+            );
+        }
         // if we input the empty string, we should return no tokens
         if haystack.is_empty() {
             return Ok(TokenIter {
                 matcher: self.matcher(haystack),
                 prev_end: None,
+                #[cfg(regexml_verif)]
+                verif_id: crate::verif::new_id(),
             });
         }
         self.check_matches_empty_string()?;
@@ -109,6 +178,8 @@ impl Regex {
         Ok(TokenIter {
             matcher: self.matcher(haystack),
             prev_end: Some(0),
+            #[cfg(regexml_verif)]
+            verif_id: crate::verif::new_id(),
         })
     }
 
@@ -125,6 +196,19 @@ impl Regex {
     /// vector provides both the matching and non-matching substrings. It also
     /// provides access to matched subgroups.
     pub fn analyze<'a>(&'a self, haystack: &str) -> Result<AnalyzeIter<'a>, Error> {
+        #[cfg(regexml_verif)]
+        if let Some(_traced) = crate::verif::enter() {
+            let ids = format!("\"rid\":{},\"s\":{}", self.verif_id, crate::verif::str_json(haystack));
+            return crate::verif::call(
+                "analyze",
+                ids,
+                || self.analyze(haystack),
+                |r| match r {
+                    Ok(it) => format!("{{\"k\":\"ok\",\"it\":{}}}", it.verif_id),
+                    Err(e) => crate::verif::err_json(e),
+                },
+            );
+        }
         self.check_matches_empty_string()?;
         Ok(AnalyzeIter::new(
             &self.re_program.pattern,
@@ -142,12 +226,27 @@ impl Regex {
 pub struct TokenIter<'a> {
     matcher: ReMatcher<'a>,
     prev_end: Option<usize>,
+    #[cfg(regexml_verif)]
+    verif_id: u64,
 }
 
 impl Iterator for TokenIter<'_> {
     type Item = String;
 
     fn next(&mut self) -> Option<Self::Item> {
+        #[cfg(regexml_verif)]
+        if let Some(_traced) = crate::verif::enter() {
+            let ids = format!("\"it\":{}", self.verif_id);
+            return crate::verif::call(
+                "tok_next",
+                ids,
+                || self.next(),
+                |r| match r {
+                    Some(s) => format!("{{\"k\":\"some\",\"v\":{}}}", crate::verif::str_json(s)),
+                    None => "{\"k\":\"none\"}".to_string(),
+                },
+            );
+        }
         if let Some(prev_end) = self.prev_end {
             if self.matcher.matches(prev_end) {
                 let start = self.matcher.get_paren_start(0).unwrap();
